@@ -364,7 +364,9 @@ chk("C24", "model_checking",
 EXTRA = {
     "C02": " A strided sample of the deterministic families of C04 / C05 / C07 (scope skeletons as function bodies, loop nests, "
            "return in operand positions) is included; ill-formed variants also place the return inside a filter written in a "
-           "function or closure.",
+           "function or closure. A part of the programs is also replayed instruction by instruction: the real VM in lock step "
+           "with the machine specification spec/VM.tla on the code the real compiler emitted, and the machine's outcome on that "
+           "code against RefSem on the source (spec/VMRun.tla) - a per-program translation validation of the compiler inside TLC.",
     "C03": " Every enumerated tree is also written in 13 syntactic positions (match arm as expression / block / after an "
            "alternation pattern, if and else bodies, array element, call argument, function tail, return value, let initialiser, "
            "map value, loop-body assignment, closure body) in both renderings, which must behave alike; a strided part is "
